@@ -1,6 +1,7 @@
 (* C15 - run data only scales counts: structural laws of the gcno/gcda reader.  Property theorems only. *)
 From Grcov Require Import Model.GcnoCount Proofs.GcnoBase Proofs.GcnoReadSafe Proofs.GcnoShape Proofs.GcnoLaws Proofs.GcnoZero
-  Proofs.GcnoPerm Proofs.GcnoRel Proofs.GcnoScale Proofs.GcnoStruct Proofs.GcnoExec.
+  Proofs.GcnoPerm Proofs.GcnoRel Proofs.GcnoScale Proofs.GcnoStruct Proofs.GcnoExec Proofs.GcnoWrap.
+From Grcov Require Import Model.GcnoFlow.
 From Grcov Require Import Run.ShowGcno.
 
 (* compute_map is the model of Gcno::compute with u64 wrapping arithmetic (release build); its result is the map
@@ -65,6 +66,30 @@ Theorem C15_k_copies_scale : forall gcno_buf d (k : nat) br, (1 <= k)%nat ->
   end.
 Proof. exact k_copies_scale. Qed.
 
+(* 5b. The same for the release (u64 wrapping) model, under an explicit no-overflow hypothesis.  no_overflow_b is
+   an executable check, evaluated on the exact-arithmetic run of the same model, that (i) every counter read from
+   the gcda list fits in 64 bits, (ii) every function has a rooted-forest witness for its ON_TREE arcs and its exact
+   counts are a conserving extension of the measured ones with block throughputs and total below 2^64 (then
+   count_on_tree computes that flow and no sum wraps: C08_flow_recovery), (iii) no source line is carried by several
+   blocks (the circuit enumeration, where u64 `-` could wrap, is not entered), (iv) the reported line counts fit in
+   64 bits.  Under it the wrapping model computes exactly what the exact model computes (C15_no_overflow_bridge),
+   hence k copies give k times the counts. *)
+Theorem C15_no_overflow_bridge : forall gcno_buf ds br re,
+  compute_map_gen Wid N.sub gcno_buf ds br = Ok re -> no_overflow_b gcno_buf ds br = true ->
+  compute_map gcno_buf ds br = Ok re.
+Proof. intros gcno_buf ds br re H Hb. exact (compute_bridge gcno_buf ds br re H (no_overflow_b_sound _ _ _ Hb)). Qed.
+Theorem C15_k_copies_scale_wrap : forall gcno_buf d (k : nat) br r1, (1 <= k)%nat ->
+  compute_map_gen Wid N.sub gcno_buf [d] br = Ok r1 ->
+  no_overflow_b gcno_buf [d] br = true -> no_overflow_b gcno_buf (repeat d k) br = true ->
+  exists rk, compute_map gcno_buf [d] br = Ok r1 /\ compute_map gcno_buf (repeat d k) br = Ok rk /\
+    forall file, option_Forall2 (fun c ck =>
+        (forall line, option_Forall2 (fun n nk => nk = N.of_nat k * n) (c_lines c !! line) (c_lines ck !! line)) /\
+        c_funcs c = c_funcs ck /\ c_branches c = c_branches ck) (r1 !! file) (rk !! file).
+Proof.
+  intros gcno_buf d k br r1 Hk H1 Hb1 Hbk.
+  exact (k_copies_scale_wrap gcno_buf d k br r1 Hk H1 (no_overflow_b_sound _ _ _ Hb1) (no_overflow_b_sound _ _ _ Hbk)).
+Qed.
+
 (* 6. A function is reported executed iff the counter of its first arc (the arc leaving the entry block in the
    files LLVM and GCC write) is positive after counting: entered at least once. *)
 Theorem C15_executed_iff_first_arc : forall br res f res',
@@ -85,3 +110,5 @@ Example C15_ex_none : run_gcno ex_gcno [] true = (0, [([102; 105; 108; 101; 46; 
 Proof. vm_compute. reflexivity. Qed.
 Example C15_ex_mismatch : run_gcno ex_gcno [ex_gcda; ex_gcda_badsum] true = (1, []).
 Proof. vm_compute. reflexivity. Qed.
+Example C15_ex_no_overflow : no_overflow_b ex_gcno [ex_gcda; ex_gcda; ex_gcda] true = true /\ no_overflow_b ex_gcno [ex_gcda] true = true.
+Proof. vm_compute. split; reflexivity. Qed.
